@@ -8,6 +8,7 @@ import (
 	"crypto/ed25519"
 	"crypto/sha256"
 	"fmt"
+	"runtime/debug"
 	"sort"
 	"testing"
 
@@ -92,6 +93,25 @@ func TestCheck(t *testing.T) {
 
 	// ---- Part A: reconstruction from every subset -----------------------------------------
 	distinct := map[string]bool{}
+	// A delivered message stays what it was: the last few successfully reconstructed messages are kept (the slices the
+	// implementation returned, as the application would keep them) and re-read after EVERY later reconstruction.
+	// Part A is one goroutine and the collector is off while it runs, so a buffer recycled through a package-level pool
+	// or scratch variable is handed to the very next call - the re-read is deterministic.
+	type kept struct {
+		got, want []byte
+		ck        string
+	}
+	var retained []kept
+	oldGC := debug.SetGCPercent(-1)
+	recheck := func(after string) {
+		for _, k := range retained {
+			r.Add("evaluations", 1)
+			if !bytes.Equal(k.got, k.want) {
+				r.Violate("delivered-message-changed-by-a-later-reconstruction", map[string]any{"delivered_by": k.ck, "changed_after": after,
+					"now": fmt.Sprintf("%x", k.got[:min(len(k.got), 24)]), "was": fmt.Sprintf("%x", k.want[:min(len(k.want), 24)])})
+			}
+		}
+	}
 	for d := 1; d <= maxD; d++ {
 		for p := 0; p <= maxP; p++ {
 			for _, l := range lengths(d, r.Thorough()) {
@@ -167,6 +187,13 @@ func TestCheck(t *testing.T) {
 						})
 						r.Add("evaluations", 1)
 						ck := fmt.Sprintf("d=%d p=%d len=%d mask=%0*b local=%d", d, p, l, n, mask, local)
+						recheck(ck)
+						if !pan && cerr == nil && len(got) > 0 && bytes.Equal(got, msg) {
+							if len(retained) == 4 {
+								retained = retained[1:]
+							}
+							retained = append(retained, kept{got, bytes.Clone(msg), ck})
+						}
 						switch {
 						case pan:
 							r.Outcome("panic")
@@ -222,6 +249,8 @@ func TestCheck(t *testing.T) {
 		}
 	}
 
+	debug.SetGCPercent(oldGC)
+
 	// ---- Part B: validator accepts honest units, rejects every single-field corruption ----
 	partB(r, distinct)
 
@@ -246,7 +275,9 @@ type router struct {
 	v     map[mkey]*propeller.UnitValidator
 }
 
-func newRouter(s *propeller.Scheduler) *router { return &router{s, map[mkey]*propeller.UnitValidator{}} }
+func newRouter(s *propeller.Scheduler) *router {
+	return &router{s, map[mkey]*propeller.UnitValidator{}}
+}
 
 func (ro *router) validate(u *propeller.Unit, sender peer.ID) error {
 	k := mkey{u.CommitteeID, u.Publisher, u.MessageRoot, u.Nonce}
